@@ -638,6 +638,40 @@ def reject_case(ctx):
     ctx.sig(("reject", spec.nd, nv, how), True)
 
 
+def labels_case(ctx):
+    """Labels and component-to-axis mapping of results whose operands agree on them."""
+    rng = ctx.rng
+    spec, mesh = make_mesh(ctx)
+    n = tuple(int(k) for k in mesh.n)
+    if spec.nd == 3:
+        labels = gen.pick(rng, [["a", "b", "c"], ["mz", "mx", "my"]])
+        perm = rng.permutation(3)
+        mapping = gen.shuffle_keys(rng, {labels[j]: spec.dim_names[int(perm[j])] for j in range(3)})
+        f = df.Field(mesh, nvdim=3, value=rng.normal(size=(*n, 3)), vdims=labels, vdim_mapping=mapping)
+        g = df.Field(mesh, nvdim=3, value=rng.normal(size=(*n, 3)), vdims=labels, vdim_mapping=mapping)
+        for name, call in (("f.cross(g)", lambda: f.cross(g)), ("f & g", lambda: f & g),
+                           ("f.cross(vector)", lambda: f.cross((1.0, 2.0, 3.0))), ("f + g", lambda: f + g)):
+            r = call()
+            ctx.check("C03.commute.labels",
+                      list(r.vdims) == labels and dict(r.vdim_mapping) == dict(f.vdim_mapping),
+                      expr=name, got_vdims=r.vdims, got_mapping=r.vdim_mapping,
+                      operands_vdims=labels, operands_mapping=dict(f.vdim_mapping))
+    # a labelled scalar field that says which axis it belongs to (a component taken out of a
+    # vector field and relabelled) broadcasts over constant vectors and per-cell arrays like
+    # any scalar field
+    d = spec.dim_names[int(rng.integers(0, spec.nd))]
+    sa = rng.normal(size=(*n, 1))
+    s = df.Field(mesh, nvdim=1, value=sa, vdims=["s"], vdim_mapping={"s": d})
+    vec = tuple(rng.normal(size=3).tolist())
+    for name, call, exp in (("s * vector", lambda: s * vec, sa * np.asarray(vec)),
+                            ("vector * s", lambda: vec * s, sa * np.asarray(vec)),
+                            ("s + array", lambda: s + np.ones(3), sa + np.ones(3))):
+        okc, r = ctx.expect_ok("C03.raise_parity", call, what={"expr": name, "scalar_mapping": {"s": d}})
+        if okc:
+            ctx.check("C03.node.values", r.array.shape == exp.shape and bool(np.allclose(r.array, exp, rtol=1e-14, atol=0)),
+                      expr=name, got_shape=r.array.shape)
+
+
 def where_case(ctx):
     """ufuncs called with where= (and no out=): the selected cells hold the numpy result, the
     operands are untouched (what the unselected cells hold is numpy's business: not judged)."""
@@ -745,5 +779,7 @@ def run_case(ctx, i):
         commute_case(ctx)
         if ctx.rng.random() < 0.3:
             where_case(ctx)
+        if ctx.rng.random() < 0.3:
+            labels_case(ctx)
     else:
         reject_case(ctx)
